@@ -7,6 +7,8 @@ def mir_vcs():
     return [
         {"name": "rollback_and_save_rej_files: .rej only for report.failed() and index == rejected", "function": "rollback_and_save_rej_files", "target": "bin",
          "run": lambda f, v, w: _mir.vc_rej_only_failed(f, v, w)},
+        {"name": "rollback_and_save_rej_files: Ok only when the stack top is not of the rejected patch (no arm leaves the loop early)", "function": "rollback_and_save_rej_files", "target": "bin",
+         "run": lambda f, v, w: _mir.vc_rej_pass_complete(f, v, w)},
         {"name": "apply_worker: file patches of the broken patch are still attempted, later ones are not", "function": "apply_worker", "target": "bin",
          "run": lambda f, v, w: _mir.vc_worker_stop_strict(f, v, w)},
         {"name": "sequential: rollback (and rejects) of the failing patch happen before save", "function": "sequential::apply_patches", "target": "bin",
